@@ -397,6 +397,14 @@ func (e *ControllerEngine) StartWatches(name string, ws ...Watch) error {
 	c.mx.Lock()
 	defer c.mx.Unlock()
 
+	// Another Goroutine may have started informers since we took the snapshot
+	// above, so we take a fresh one now that we hold the write lock.
+	a = e.infs.ActiveInformers()
+	activeInformer = make(map[schema.GroupVersionKind]bool, len(a))
+	for _, gvk := range a {
+		activeInformer[gvk] = true
+	}
+
 	// Start new sources.
 	for i, w := range ws {
 		wid := WatchID{Type: w.wt, GVK: gvks[i]}
@@ -422,8 +430,10 @@ func (e *ControllerEngine) StartWatches(name string, ws ...Watch) error {
 			return errors.Wrapf(err, "cannot start %q watch for %q", wid.Type, wid.GVK)
 		}
 
-		// Record that we're now running this source.
+		// Record that we're now running this source. Starting the source
+		// started its informer, if it wasn't running already.
 		c.sources[wid] = src
+		activeInformer[wid.GVK] = true
 
 		e.log.Debug("Started watching GVK", "controller", name, "watch-type", wid.Type, "watched-gvk", wid.GVK)
 	}
